@@ -113,7 +113,8 @@ def run_file(scn, image=None):
     maxlen = (scn.get("knobs") or {}).get("MAX_VBS_RECORD_LENGTH")
     if reader in ("VbsReader", "IpmReader"):
         out = decode.run_reader(image, reader, blocked, enc=scn.get("encoding"),
-                                cfg=msgcodec.cfg_from_json(scn.get("config", "packaged")), maxlen=maxlen)
+                                cfg=msgcodec.cfg_from_json(scn.get("config", "packaged")), maxlen=maxlen,
+                                style=scn.get("style", "for"))
     else:
         enc = scn.get("encoding") or "latin_1"
         fam = "ebcdic" if enc.startswith("cp") else "ascii"
